@@ -149,10 +149,15 @@ def k_pdu(ctx, kind, cfg, p, model_fed=False, via="ctor", seed=0):
         if kind == "finished":
             fp = obj.finished_params
             extra = [(int(fp.condition_code), int(fp.delivery_code), int(fp.file_status)) == (p["cond"], p["delivery"], p["status"])]
+            # the two length views of the Finished PDU: fault location TLV (0 when there is none) and the response TLVs together;
+            # with the status octet they make up the parameter field
+            fid = exp.get("fault_id")
+            extra.append(obj.fault_location_len == (0 if fid is None else 2 + len(fid) // 2))
+            extra.append(1 + obj.fault_location_len + obj.file_store_responses_len == len(want) - hl - 1 - (2 if cfg["crc"] else 0))
         if hasattr(obj, "directive_param_field_len"):
             extra.append(obj.directive_param_field_len == len(want) - hl - 1)      # documented: the data field without the directive code octet
         if extra:
-            ctx.check("pdu.delegated_views", all(extra), "parameter_view_differs", kind, case)
+            ctx.check("pdu.delegated_views", all(extra), "parameter_view_differs", kind, case, views=extra)
     V.pdu_views(ctx, "pdu.delegated_views", u, want, hexp, case, f"{cls.__name__}/unpacked")
     if kind == "finished":
         # the alternative constructors give a plain success PDU, whatever was done to earlier ones
